@@ -372,6 +372,8 @@ inductive Outcome
   | notAllowed (allow : Str)                        -- router: RouteMethodError
   | raises (cls : Str) (msg : Str) (tb : Str)       -- handler or hook raised `cls(msg)`; tb = format_exc()
   | requestError (cls : String) (msg : Str) (tb : Str)  -- a body accessor called request._raise(cls(msg), RequestError)
+  | iterRaises (cls : Str) (msg : Str) (tb : Str)   -- handler returned an iterator whose first next() raised
+  | unsupportedType (ty : Str)                      -- handler returned an iterable of a non-text item; ty = str(type(item))
   | abort (code : Nat) (text : Option Str)          -- user code raised HTTPError(code, text)
   | ok (body : Str)                                 -- handler returned text
   deriving Repr
@@ -388,7 +390,8 @@ def excRepr (pr : Char → Bool) (cls msg : Str) : Str := cls ++ '(' :: pyRepr p
 def err500 (pr : Char → Bool) (cls msg tb : Str) : ErrResp :=
   httpError 500 (some "Internal Server Error".toList) (some (excRepr pr cls msg)) (some tb)
 
-/-- `Ombott._handle` as far as it produces an error object: `.inl body` = a normal 200 text -/
+/-- `Ombott._handle` (and the two places of `_cast` that create an error object while looking at
+the handler's result) as far as they produce an error object: `.inl body` = a normal 200 text -/
 def handleErr (pr : Char → Bool) (rawPath : Bytes) (oc : Outcome) : Sum Str ErrResp :=
   match utf8Decode rawPath with
   | none => .inr (httpError 400 (some "Invalid path string. Expected UTF-8".toList))
@@ -402,6 +405,11 @@ def handleErr (pr : Char → Bool) (rawPath : Bytes) (oc : Outcome) : Sum Str Er
       match (Gen.errorsMap.lookup cls).orElse fun _ => Gen.errorsMap.lookup "RequestError" with
       | some (code, body) => .inr (httpError code (some body))    -- shared HTTPError of errors_map
       | none => .inr (err500 pr cls.toList msg tb)
+    -- _cast: first = HTTPError(500, 'Unhandled exception', err500, format_exc())
+    | .iterRaises cls msg tb =>
+      .inr (httpError 500 (some "Unhandled exception".toList) (some (excRepr pr cls msg)) (some tb))
+    -- _cast: out = HTTPError(500, f'Unsupported response type: {type(first)}')
+    | .unsupportedType ty => .inr (httpError 500 (some ("Unsupported response type: ".toList ++ ty)))
     | .abort code text => .inr (httpError code text)
     | .ok body => .inl body
 
